@@ -193,6 +193,12 @@ func SharedMap(m any) {}
 // inconclusive. Used only where the remaining obligation is "no Go panic".
 func SoftOpaque(on bool) {}
 
+// PrintedCount / PrintedAt: what the code under test has written with fmt.Print* / fmt.Fprint*
+// (standard output and standard error alike) on the current path, one entry per call, in order.
+// Natively nothing is captured (0 / "").
+func PrintedCount() int      { return 0 }
+func PrintedAt(k int) string { return "" }
+
 // Cost is the number of SSA instructions the engine has executed on the current path (0 natively):
 // an exact, deterministic cost meter for "time bounded by a modest function of the input length".
 func Cost() int { return 0 }
